@@ -1482,14 +1482,23 @@ fn stage_pairs(args: &Args, n: usize) -> Vec<TaskOut> {
             for v in 0..2 {
                 let mut re: Vec<Req> = vec![];
                 let mut acc: Vec<u8> = vec![];
-                let flush_acc = |acc: &mut Vec<u8>, re: &mut Vec<Req>, rng: &mut Rng, last_op: u8| {
+                // What is claimed (and proved on the model, BV.Props.C05Chunk): PROCESS boundaries
+                // are irrelevant, and bytes may move between a FLUSH / FINISH call and the PROCESS
+                // calls before it AS LONG AS that call keeps at least one byte when it had one
+                // (`keep` = 1) and stays empty when it was empty (`keep` = 0, everything goes to
+                // PROCESS calls): a block that becomes full with the LAST byte of the request is
+                // encoded with the request's flags when the byte arrives in the FLUSH / FINISH call
+                // itself, and without them (followed by an empty flagged invocation) when it arrived
+                // in a PROCESS call before — see `stage_boundary`.
+                let flush_acc = |acc: &mut Vec<u8>, re: &mut Vec<Req>, rng: &mut Rng, last_op: u8, keep: usize| {
                     // cut `acc` into random PROCESS chunks, the tail goes with `last_op`
                     let mut pos = 0usize;
-                    while acc.len() - pos > 0 && rng.chance(3, 4) {
-                        let n = (match v { 0 => rng.range(1, 4000) as usize, _ => *rng.pick(&[1usize, 7, 1000, 16384, 65536, 5]) }).min(acc.len() - pos);
+                    let lim = acc.len() - keep.min(acc.len());
+                    while lim - pos > 0 && (keep == 0 && last_op != OP_PROCESS || rng.chance(3, 4)) {
+                        let n = (match v { 0 => rng.range(1, 4000) as usize, _ => *rng.pick(&[1usize, 7, 1000, 16384, 65536, 5]) }).min(lim - pos);
                         re.push(Req { op: OP_PROCESS, data: acc[pos..pos + n].to_vec() });
                         pos += n;
-                        if re.len() > 600 { break; }
+                        if re.len() > 600 && !(keep == 0 && last_op != OP_PROCESS) { break; }
                     }
                     re.push(Req { op: last_op, data: acc[pos..].to_vec() });
                     acc.clear();
@@ -1497,8 +1506,8 @@ fn stage_pairs(args: &Args, n: usize) -> Vec<TaskOut> {
                 for rq in &reqs {
                     match rq.op {
                         OP_PROCESS => acc.extend_from_slice(&rq.data),
-                        OP_METADATA => { if !acc.is_empty() { flush_acc(&mut acc, &mut re, &mut rng, OP_PROCESS); } re.push(rq.clone()); }
-                        o => { acc.extend_from_slice(&rq.data); flush_acc(&mut acc, &mut re, &mut rng, o); }
+                        OP_METADATA => { if !acc.is_empty() { flush_acc(&mut acc, &mut re, &mut rng, OP_PROCESS, 1); } re.push(rq.clone()); }
+                        o => { let keep = if rq.data.is_empty() { 0 } else { 1 }; acc.extend_from_slice(&rq.data); flush_acc(&mut acc, &mut re, &mut rng, o, keep); }
                     }
                 }
                 let other = drive(&cfg, &re, &gen_sched(&mut rng), total <= 3000 || rec_all);
@@ -1514,6 +1523,92 @@ fn stage_pairs(args: &Args, n: usize) -> Vec<TaskOut> {
                 }
             }
         }
+        TaskOut { lines, rep }
+    })
+}
+
+/// block-boundary cases of the input-chunking claim (BV.Props.C05Chunk), deterministic grid.
+/// `D` = exactly `m` input blocks (2^lgblock bytes each), optionally behind a completed FLUSH at an
+/// unaligned offset.  Histories:
+///   A  PROCESS D, FINISH -            B  PROCESS D[..k], PROCESS D[k..], FINISH -      (tail empty)
+///   C  FINISH D                       E  PROCESS D[..k], FINISH D[k..]                 (tail not empty)
+///   F / G  as A / C with the last byte of D removed (control: not on a boundary)
+/// Claimed, and a violation otherwise: bytes(A) = bytes(B), bytes(C) = bytes(E), bytes(F) = bytes(G).
+/// NOT claimed: bytes(A) = bytes(C).  The model says the payload-encoder requests differ there
+/// (A: the last block without `is_last`, then an empty `is_last` invocation; C: the last block with
+/// `is_last`); the stage checks on the hook log that the real code does exactly that
+/// (`boundary.reqs_as_model`, violation `stream:c05:boundary-reqs` otherwise) and counts whether the
+/// bytes differ (`boundary.bytes_differ` / `boundary.bytes_equal`: an observation).  Skeleton
+/// correspondence lines of A and C go to the Lean driver (the model's request list against the hook log).
+fn stage_boundary(args: &Args) -> Vec<TaskOut> {
+    let seed = args.seed;
+    // (quality, lgwin, catable, lgblock the encoder will choose)
+    let grid: Vec<(u32, u32, bool, u32)> = vec![(2, 16, false, 14), (3, 18, false, 14), (2, 12, true, 14), (5, 16, false, 16), (9, 16, false, 16), (1, 10, true, 10), (0, 12, true, 12), (4, 14, false, 16)];
+    let n = grid.len() * 2 * 2 * 2;
+    let grid = std::sync::Arc::new(grid);
+    par_tasks(n, move |i| {
+        let (q, w, cat, lgb) = grid[i % grid.len()];
+        let j = i / grid.len();
+        let (style, m, pre) = (if j % 2 == 0 { 0u64 } else { 2u64 }, 1 + (j / 2) % 2, (j / 4) % 2 == 1);
+        let mut rng = Rng::new(seed ^ 0xB0DA ^ ((i as u64) << 20));
+        let mut rep = Report::default();
+        let mut lines = vec![];
+        if skip_task(i) { return TaskOut { lines, rep }; }
+        set_task(format!("replay: BV_ONLY={} bvh stream c05 --seed {} (boundary stage: q{} lgwin{} catable{} style{} blocks{} flush-prefix{})", i, seed, q, w, cat, style, m, pre));
+        let bs = 1usize << lgb;
+        let mut cfg = simple_cfg(q, w, cat, false, 0);
+        cfg.hint_exact = true;
+        let prefix: Vec<u8> = if pre { gen_bytes(&mut rng, 1000 + (i % 7) * 37, 2) } else { vec![] };
+        let d = gen_bytes(&mut rng, m * bs, style);
+        let k = *rng.pick(&[1usize, bs / 2, bs - 1, 777]) % d.len();
+        let k = if k == 0 { 1 } else { k };
+        let head = |v: &mut Vec<Req>| { if pre { v.push(Req { op: OP_FLUSH, data: prefix.clone() }); } };
+        let mk = |parts: &[(u8, &[u8])]| -> Vec<Req> { let mut v = vec![]; head(&mut v); for (op, x) in parts { v.push(Req { op: *op, data: x.to_vec() }); } v };
+        let ha = mk(&[(OP_PROCESS, &d), (OP_FINISH, &[])]);
+        let hb = mk(&[(OP_PROCESS, &d[..k]), (OP_PROCESS, &d[k..]), (OP_FINISH, &[])]);
+        let hc = mk(&[(OP_FINISH, &d)]);
+        let he = mk(&[(OP_PROCESS, &d[..k]), (OP_FINISH, &d[k..])]);
+        let d1 = &d[..d.len() - 1];
+        let hf = mk(&[(OP_PROCESS, d1), (OP_FINISH, &[])]);
+        let hg = mk(&[(OP_FINISH, d1)]);
+        rep.evaluations += 1;
+        let run = |h: &Vec<Req>, rng: &mut Rng, ample: bool| drive(&cfg, h, &if ample { OutSched::ample() } else { gen_sched(rng) }, true);
+        let ra = run(&ha, &mut rng, true);
+        let rb = run(&hb, &mut rng, false);
+        let rc = run(&hc, &mut rng, true);
+        let re = run(&he, &mut rng, false);
+        let rf = run(&hf, &mut rng, true);
+        let rg = run(&hg, &mut rng, false);
+        for (name, r) in [("A", &ra), ("B", &rb), ("C", &rc), ("E", &re), ("F", &rf), ("G", &rg)] {
+            if let Some((sig, what)) = &r.fail { rep.violation(sig, &format!("boundary history {}: {}", name, what), case_json(&cfg, &r.sess, "boundary stage")); return TaskOut { lines, rep }; }
+        }
+        rep.nontrivial += 1;
+        let s = snap(&ra.sess.enc);
+        if s.b as u32 != lgb { rep.violation("stream:c05:boundary-lgblock", &format!("the encoder chose lgblock {} where the stage expects {}", s.b, lgb), case_json(&cfg, &ra.sess, "boundary stage")); return TaskOut { lines, rep }; }
+        rep.count("boundary.cases");
+        for (x, y, nx, ny) in [(&ra, &rb, "A", "B"), (&rc, &re, "C", "E"), (&rf, &rg, "F", "G")] {
+            rep.count("boundary.claimed_pairs");
+            if x.sess.delivered != y.sess.delivered {
+                let at = dec::first_diff(&x.sess.delivered, &y.sess.delivered);
+                rep.violation("stream:c05:in-chunking:boundary", &format!("bytes differ between histories {} and {} of the boundary stage (quality {}, block {}, {} blocks, flush prefix {}): {} vs {} bytes, first diff at {}", nx, ny, q, bs, m, pre, x.sess.delivered.len(), y.sess.delivered.len(), at), case_json(&cfg, &y.sess, &format!("reference history: {}", x.sess.history_line().chars().take(200).collect::<String>())));
+            }
+        }
+        // the requests of A and C at the boundary, as the model predicts them
+        let evs = |r: &RunOut| -> Vec<(u64, u64, bool, bool)> { r.sess.recs.iter().flat_map(|c| c.events.iter().filter(|e| e.site == 0).map(|e| (e.lp_before, e.input_pos, e.is_last, e.force_flush))).collect() };
+        let (ea, ec) = (evs(&ra), evs(&rc));
+        let end = (prefix.len() + d.len()) as u64;
+        // the catable prelude moves the first two bytes out of the first request
+        let ok_a = ea.len() >= 2 && ea[ea.len() - 1] == (end, end, true, false) && { let x = ea[ea.len() - 2]; x.1 == end && end - x.0 <= bs as u64 && end - x.0 + 2 >= bs as u64 && !x.2 && !x.3 };
+        let ok_c = ec.len() >= 1 && { let x = ec[ec.len() - 1]; x.1 == end && end - x.0 <= bs as u64 && end - x.0 + 2 >= bs as u64 && x.2 && !x.3 } && ec.len() + 1 == ea.len();
+        if ok_a && ok_c { rep.count("boundary.reqs_as_model"); } else {
+            rep.violation("stream:c05:boundary-reqs", &format!("payload-encoder requests at a block boundary are not what the model predicts: PROCESS D, FINISH - issued {:?}; FINISH D issued {:?} (block {}, end {})", ea, ec, bs, end), case_json(&cfg, &ra.sess, "boundary stage"));
+        }
+        if ra.sess.delivered != rc.sess.delivered { rep.count("boundary.bytes_differ"); } else { rep.count("boundary.bytes_equal"); }
+        if dec::decode_both(&ra.sess.delivered, false, &ra.fed).is_err() || dec::decode_both(&rc.sess.delivered, false, &rc.fed).is_err() {
+            rep.violation("stream:roundtrip", "a boundary history does not decode to its input", case_json(&cfg, &ra.sess, "boundary stage"));
+        }
+        if let Some(l) = corr_line(&ra.sess, false) { lines.push(l); }
+        if let Some(l) = corr_line(&rc.sess, false) { lines.push(l); }
         TaskOut { lines, rep }
     })
 }
@@ -1760,7 +1855,7 @@ pub fn run_cmd(args: &Args) {
     let scale = if thorough { 12 } else { 1 };
     if which == "c01" || which == "all" { outs.extend(stage_plans(args, 9000 * scale, 0xC01, true, false)); outs.extend(stage_fragments(args, 24 * scale)); outs.extend(stage_ringwrap(args, 24 * scale)); }
     if which == "c04" || which == "all" { outs.extend(stage_plans(args, 6000 * scale, 0xC04, true, true)); }
-    if which == "c05" || which == "all" { outs.extend(stage_pairs(args, 3500 * scale)); outs.extend(stage_alloc_big(args)); }
+    if which == "c05" || which == "all" { outs.extend(stage_pairs(args, 3500 * scale)); outs.extend(stage_alloc_big(args)); outs.extend(stage_boundary(args)); }
     if which == "c20" || which == "all" {
         outs.extend(stage_exhaustive(args));
         outs.extend(stage_random_contract(args, 3000 * scale));
